@@ -83,6 +83,11 @@ CHECKS.update({
             '<=2 (thorough, capped) preemptions of the four threads on the real SubscribableStateMixin; each run is recorded (lock acquire/release, snapshot, change, event set, wake-up) and the batch is '
             'validated by one TLC run re-using Subscribe\'s actions; plus whole test runs with two watcher threads under seeded random schedules and in-body probes for measurement/log/dut_id notifications',
             'trusted: TLC, vf/sched.py (cooperative primitives log lock and event operations), vf/explore.py, vf/tracecheck.py', 'DESIGN.md 5/C18'),
+    'C12': ('TLA+ specs PhaseTimeout.tla (discrete-time deadline polling) and KillableThread.tla (PlusCal run/kill protocol, Termination) checked by TLC; timeout rows replayed on the real executor in virtual time; a real KillableThread explored by preemption-bounded DFS',
+            'every (timeout, duration incl. never-returning, body result) row is run through the real executor under virtual time inside a group with teardown phase and plug: phase result, run outcome, teardown, plug '
+            'tearDown and the time the executor proceeds; all interleavings (<=3 / <=4 preemptions) of start(), kill() and the thread on a real KillableThread subclass judged against KillBeforeStart / '
+            'KillAfterBodyNoEffect / ConfinedToBody; late effects of an abandoned body probed',
+            'trusted: TLC, vf/sched.py virtual time and async-exception shim (delivery at scheduling points only)', 'DESIGN.md 5/C12'),
 })
 
 NOT_APPLICABLE = {
